@@ -126,3 +126,21 @@ Proof.
   - exact HRf.
   - exact HR2.
 Qed.
+
+(* ---- union over two TreeSet cursors ------------------------------------------------------------------ *)
+
+Lemma union_tree_run_spec : forall fw a b leb n,
+  union_tree_run fw a b n = rspec_run leb (dir_list fw (sort_dedup (a ++ b))) (repeat CNext n).
+Proof.
+  intros fw a b leb n. unfold union_tree_run.
+  destruct (treeset_open_nn fw a) as [c1 [Ho1 HR1]]. destruct (treeset_open_nn fw b) as [c2 [Ho2 HR2]].
+  rewrite Ho1, Ho2. unfold bind at 1. unfold bind at 1.
+  assert (E : dir_list fw (sort_dedup (a ++ b)) =
+              merge fw (dir_list fw (sort_dedup a)) (dir_list fw (sort_dedup b))).
+  { apply (sorted_dir_unique fw).
+    - apply dir_list_sorted. apply sort_dedup_sorted.
+    - apply merge_sorted; apply dir_list_sorted; apply sort_dedup_sorted.
+    - intro z. rewrite merge_in, !dir_list_in, !sort_dedup_in, in_app_iff. tauto. }
+  rewrite E.
+  eapply union_run_spec; [exact tree_sim_nn | exact tree_sim_nn | exact tree_nonnil | exact tree_nonnil | exact HR1 | exact HR2].
+Qed.
